@@ -496,6 +496,12 @@ def _mk_body(node, ctx, htf):
     hook = ctx.hooks.get(pid)
     if hook is not None:
       hook(test, inv, plugs)
+    if node.get('monitored') == 'inner':
+      # stay in the body until the monitor has stored a sample (its second poll starts after the first one was stored);
+      # a body shorter than that leaves the monitor's measurement unset, which is a failure of its own
+      base, t_end = MONITOR_PROBE_CALLS[0], time.time() + 5
+      while MONITOR_PROBE_CALLS[0] < base + 2 and time.time() < t_end:
+        time.sleep(0.002)
     b = script[min(inv, len(script) - 1)]
     for name, v in b['sets'].items():
       if v in ('x', 'px'):
@@ -567,66 +573,92 @@ def build_phase(node, ctx, htf, plug_map=None):
   pid = node['id']
   o = node['o']
   p = htf.PhaseDescriptor.wrap_or_copy(_mk_body(node, ctx, htf))
-  kw = {}
-  if o.get('rl') is not None:
-    kw['repeat_limit'] = o['rl']
-  if o.get('fr'):
-    kw['force_repeat'] = True
-  if o.get('romf'):
-    kw['repeat_on_measurement_fail'] = True
-  if o.get('rot'):
-    kw['repeat_on_timeout'] = True
-  if o.get('somf'):
-    kw['stop_on_measurement_fail'] = True
-  if o.get('to') is not None:
-    kw['timeout_s'] = o['to']
-  ri = o.get('run_if')
-  if ri:
-    def run_if(ri=ri, pid=pid):
-      ctx.log('run_if', pid)
-      if ri == 'X':
-        raise RunIfBoom('run_if p%d' % pid)
-      return ri == 'T'
-    kw['run_if'] = run_if
-  if kw:
-    p = htf.PhaseOptions(**kw)(p)
-  if node['m']:
-    from openhtf.util import validators as _validators  # pylint: disable=g-import-not-at-top
-    _members = [result_enum().R0, result_enum().R1, result_enum().R2, result_enum().R3]
-    ms = []
-    for name in node['m']:
-      mm = htf.Measurement(name).in_range(0, 10)
-      cv = (node.get('cv') or {}).get(name)
-      if cv is not None:   # conditional validator: the 'pass' value 5 fails it when diagnosis result R<cv> exists at phase start
-        mm = mm.validate_on({_members[cv]: _validators.in_range(0, 3)})
-      ms.append(mm)
-    p = htf.measures(*ms)(p)
-  if node['d']:
-    p = htf.diagnose(*[_mk_diag(d, ctx, htf, (pid, k), False) for k, d in enumerate(node['d'])])(p)
-  for spec in (node.get('plugs') or []):
-    argname, idx = spec[0], spec[1]
-    upd = spec[2] if len(spec) > 2 else True
-    if len(spec) > 3 and spec[3] == 'ph':  # declared as a placeholder, substituted with with_plugs()
-      p = htf.plugs.plug(update_kwargs=bool(upd), **{argname: htf.plugs.BasePlug.placeholder})(p)
-      p = p.with_plugs(**{argname: plug_map[idx]})
-    else:
-      p = htf.plugs.plug(update_kwargs=bool(upd), **{argname: plug_map[idx]})(p)
-  if node.get('shadow_args'):
-    # with_args() under the names of the phase's plug arguments (e.g. applied to a whole sequence in which another phase
-    # takes that name as a plain argument): the docstring of PhaseDescriptor.__call__ says plugs override extra_kwargs
-    names = [spec[0] for spec in (node.get('plugs') or []) if (spec[2] if len(spec) > 2 else True)]
-    if names:
-      p = p.with_args(**{a: 'shadowed-by-with_args' for a in names})
-  if node.get('monitored'):
+
+  def apply_options(p):
+    kw = {}
+    if o.get('rl') is not None:
+      kw['repeat_limit'] = o['rl']
+    if o.get('fr'):
+      kw['force_repeat'] = True
+    if o.get('romf'):
+      kw['repeat_on_measurement_fail'] = True
+    if o.get('rot'):
+      kw['repeat_on_timeout'] = True
+    if o.get('somf'):
+      kw['stop_on_measurement_fail'] = True
+    if o.get('to') is not None:
+      kw['timeout_s'] = o['to']
+    ri = o.get('run_if')
+    if ri:
+      def run_if(ri=ri, pid=pid):
+        ctx.log('run_if', pid)
+        if ri == 'X':
+          raise RunIfBoom('run_if p%d' % pid)
+        return ri == 'T'
+      kw['run_if'] = run_if
+    if kw:
+      p = htf.PhaseOptions(**kw)(p)
+    return p
+
+  def apply_measurements(p):
+    if node['m']:
+      from openhtf.util import validators as _validators  # pylint: disable=g-import-not-at-top
+      _members = [result_enum().R0, result_enum().R1, result_enum().R2, result_enum().R3]
+      ms = []
+      for name in node['m']:
+        mm = htf.Measurement(name).in_range(0, 10)
+        cv = (node.get('cv') or {}).get(name)
+        if cv is not None:   # conditional validator: the 'pass' value 5 fails it when diagnosis result R<cv> exists at phase start
+          mm = mm.validate_on({_members[cv]: _validators.in_range(0, 3)})
+        ms.append(mm)
+      p = htf.measures(*ms)(p)
+    return p
+
+  def apply_diagnosers(p):
+    if node['d']:
+      p = htf.diagnose(*[_mk_diag(d, ctx, htf, (pid, k), False) for k, d in enumerate(node['d'])])(p)
+    return p
+
+  def apply_plugs(p):
+    for spec in (node.get('plugs') or []):
+      argname, idx = spec[0], spec[1]
+      upd = spec[2] if len(spec) > 2 else True
+      if len(spec) > 3 and spec[3] == 'ph':  # declared as a placeholder, substituted with with_plugs()
+        p = htf.plugs.plug(update_kwargs=bool(upd), **{argname: htf.plugs.BasePlug.placeholder})(p)
+        p = p.with_plugs(**{argname: plug_map[idx]})
+      else:
+        p = htf.plugs.plug(update_kwargs=bool(upd), **{argname: plug_map[idx]})(p)
+    if node.get('shadow_args'):
+      # with_args() under the names of the phase's plug arguments (e.g. applied to a whole sequence in which another phase
+      # takes that name as a plain argument): the docstring of PhaseDescriptor.__call__ says plugs override extra_kwargs
+      names = [spec[0] for spec in (node.get('plugs') or []) if (spec[2] if len(spec) > 2 else True)]
+      if names:
+        p = p.with_args(**{a: 'shadowed-by-with_args' for a in names})
+    return p
+
+  def apply_monitor(p):
     # the phase (with the plugs it requests) is wrapped by a monitor, as in openhtf.core.monitors' documented usage
     from openhtf.core import monitors as _monitors  # pylint: disable=g-import-not-at-top
     name = p.name
-    p = _monitors.monitors('mon_p%d' % pid, _monitor_probe, poll_interval_ms=50)(p)
-    p = htf.PhaseOptions(name=name)(p)
+    p = _monitors.monitors('mon_p%d' % pid, _monitor_probe, poll_interval_ms=20 if node.get('monitored') == 'inner' else 50)(p)
+    return htf.PhaseOptions(name=name)(p)
+
+  if node.get('monitored') == 'inner':
+    # the documented stacking (docs/ and examples/all_the_things.py): the monitor directly around the function and its
+    # plugs, options / measurements / diagnosers declared outside of it
+    p = apply_monitor(apply_plugs(p))
+    return apply_diagnosers(apply_measurements(apply_options(p)))
+  p = apply_plugs(apply_diagnosers(apply_measurements(apply_options(p))))
+  if node.get('monitored'):
+    p = apply_monitor(p)
   return p
 
 
+MONITOR_PROBE_CALLS = [0]
+
+
 def _monitor_probe(test):
+  MONITOR_PROBE_CALLS[0] += 1
   return 1
 
 
